@@ -30,10 +30,16 @@ def run_graphs(prop, tier, factory, cfgs, keep, *, single_outcome_ok=(), assumpt
         rep.violation(sig, what, replay)
     if validate_every is None:
         validate_every = 1 if tier == 'thorough' else 10
-    inner = max(1, NCPU // max(1, len(cfgs)))
-    jobs = [(factory, c, sorted(keep) if keep is not None else None, validate_every, max_states, inner)
-            for c in cfgs]
-    # biggest graphs first for better packing
+    # big graphs are searched one at a time with level-synchronous parallel expansion over all cores; the many small ones
+    # run side by side, one process each
+    def is_big(c):
+        return c.get('Lmax', 0) >= 4 or (c.get('Nmax', 0) >= 5 and 'long' not in c.get('features', ())) or c.get('big_graph')
+    big = [c for c in cfgs if is_big(c)]
+    small = [c for c in cfgs if not is_big(c)]
+    inner = max(1, NCPU // max(1, len(small)))
+    mk = lambda c, procs: (factory, c, sorted(keep) if keep is not None else None, validate_every, max_states, procs)
+    jobs = [mk(c, inner) for c in small]
+    big_jobs = [mk(c, NCPU) for c in big]
     from .common import fork_map
 
     def died(job, status):
@@ -47,7 +53,11 @@ def run_graphs(prop, tier, factory, cfgs, keep, *, single_outcome_ok=(), assumpt
                                 f'the interpreter was killed by {name} while the state graph of {_short(job[1])} was explored',
                                 {'config': job[1], 'history': []})],
                 'samples': [], 'cap_hit': None}
-    results = fork_map(_run_one, jobs, procs=min(NCPU, len(jobs)), on_death=died)
+    results = []
+    for bj in big_jobs:
+        results += fork_map(_run_one, [bj], procs=1, on_death=died, always_fork=True)
+    if jobs:
+        results += fork_map(_run_one, jobs, procs=min(NCPU, len(jobs)), on_death=died)
     tot = collections.Counter()
     outcomes = collections.defaultdict(collections.Counter)
     samples = []
